@@ -273,6 +273,9 @@ static void make_pool(Pool& p) {
 static Outcome run_transition(std::vector<int> const& hist, int op, MPool const& before, MPool const& after) {
 	Outcome out;
 	W.reset();
+#ifdef HM_RECYCLE
+	W.recycle = true;
+#endif
 #ifdef HM_FANCY
 	fancy::g = fancy::Stats{};
 #endif
@@ -310,7 +313,7 @@ static Outcome run_transition(std::vector<int> const& hist, int op, MPool const&
 		auto rng = [](auto const& arr) { return std::make_pair(reinterpret_cast<char const*>(rawp(arr.data_elements())), reinterpret_cast<char const*>(rawp(arr.data_elements()) + arr.num_elements())); };
 		auto ov = [](std::pair<char const*, char const*> x, std::pair<char const*, char const*> y) { return x.first != x.second && y.first != y.second && x.first < y.second && y.first < x.second; };
 		if(ov(rng(*p.a), rng(*p.b)) || ov(rng(*p.a), rng(p.src)) || ov(rng(*p.b), rng(p.src))) { fail("shared-storage", "two arrays of the pool overlap in memory"); }
-		out.strides = strides_of(*p.a) + "/" + strides_of(*p.b);
+		out.strides = hidden_of(*p.a) + "/" + hidden_of(*p.b);
 	}
 #ifdef HM_FANCY
 	if(out.ok && (fancy::g.oob_deref || fancy::g.null_deref || fancy::g.null_arith)) { out.ok = false; out.oracle = fancy::g.oob_deref ? "fancy-pointer:dereference-outside-storage" : "fancy-pointer:null-pointer-use"; out.detail = fancy::g.first; }
@@ -401,6 +404,9 @@ int main(int argc, char** argv) {
 #ifdef HM_FANCY
 		" pointer=fancy::ptr" +
 #endif
+#ifdef HM_RECYCLE
+		" allocator-addresses=recycled(LIFO per size)" +
+#endif
  (ALLOC_MODE ? std::string(" traits{pocca=") + (Tr::pocca ? "1" : "0") + ",pocma=" + (Tr::pocma ? "1" : "0") + ",pocs=" + (Tr::pocs ? "1" : "0") + ",soccc_fresh=" + (Tr::soccc_fresh ? "1" : "0") + "}" : std::string());
 	if(ALLOC_MODE) { tag += std::string("|ca") + (Tr::pocca ? "1" : "0") + "ma" + (Tr::pocma ? "1" : "0") + "s" + (Tr::pocs ? "1" : "0") + (Tr::soccc_fresh ? "f" : ""); }
 
@@ -430,11 +436,20 @@ int main(int argc, char** argv) {
 	{
 		struct St { std::vector<int> h; MPool m; };
 		std::deque<St> fr; std::unordered_set<std::string> seen;
-		St s0; model_run({}, s0.m); fr.push_back(s0); seen.insert(key_of(s0.m));
+		// --prefix=<op name>;<op name>...  ($k = the k-th shape of the menu): the search starts from the state reached by that history (a non-initial root); the depth bound counts from there
+		St s0; std::size_t plen = 0;
+		if(args.has("prefix")) {
+			std::string spec = args.get("prefix"); auto shapes = shape_menu(thorough);
+			for(std::size_t k = 0; k < shapes.size(); ++k) { std::string v = "$" + std::to_string(k); for(auto q = spec.find(v); q != std::string::npos; q = spec.find(v)) { spec.replace(q, v.size(), ext_str(shapes[k])); } }
+			std::string cur; for(char ch : spec + ";") { if(ch != ';') { cur += ch; continue; } int found = -1; for(std::size_t oi = 0; oi < g_ops.size(); ++oi) { if(g_ops[oi].name == cur) { found = static_cast<int>(oi); break; } } if(found < 0) { std::fprintf(stderr, "unknown prefix op '%s'\n", cur.c_str()); return 2; } s0.h.push_back(found); cur.clear(); }
+			plen = s0.h.size(); cfgid += " start-state{" + hist_str(s0.h) + "}";
+		}
+		if(!model_run(s0.h, s0.m)) { std::fprintf(stderr, "prefix not enabled\n"); return 2; }
+		fr.push_back(s0); seen.insert(key_of(s0.m));
 		long states = 1, transitions = 0, changed = 0; int completed = -1, cur = 0; bool capped = false;
 		while(!fr.empty()) {
 			St st = std::move(fr.front()); fr.pop_front();
-			int depth = static_cast<int>(st.h.size());
+			int depth = static_cast<int>(st.h.size() - plen);
 			if(depth > cur) { completed = cur; cur = depth; }
 			if(depth >= maxdepth) { continue; }
 			if(mc::past_deadline() || states > max_states) { capped = true; break; }
@@ -485,7 +500,7 @@ int main(int argc, char** argv) {
 				std::string k = key_of(m2) + "~" + o.strides;
 				if(seen.insert(k).second) {
 					++states;
-					if(mc::R.samples.size() < 3 && h2.size() == 3 && (states % 37) == 0) { mc::R.sample(mc::J().s("config", cfgid).s("history", hist_str(h2)).s("model_state", key_of(m2)).str()); }
+					if(mc::R.samples.size() < 3 && h2.size() == 3 + plen && (states % 37) == 0) { mc::R.sample(mc::J().s("config", cfgid).s("history", hist_str(h2)).s("model_state", key_of(m2)).str()); }
 					fr.push_back(St{std::move(h2), std::move(m2)});
 				}
 			}
